@@ -144,6 +144,8 @@ CALC_TOUCH = {
     "nsf_tables": ["neutron"], "fasta_const": ["neutron"], "xsld": ["xray"], "f0": ["xray"],
     "xsld_table": ["xray", "emission"], "volume": ["covalent_radius"], "activation": ["activation"],
     "emission_table": ["emission"], "mff": ["magnetic_ff"], "mass": [],
+    "refraction": ["xray"], "composite": ["neutron"], "d2o_sld": ["neutron"], "fasta_seq": ["neutron"],
+    "formula_methods": ["neutron", "xray"], "show_table": ["activation"],
 }
 
 
